@@ -48,11 +48,26 @@ let () =
       let show s = String.concat "" (List.map (fun b -> if b then "1" else "0") (model_fields_for (n_of_int s) op kind od sm ne)) in
       Printf.printf "INFO model(ok,srcpresent,srcorig,dstorig,third) %s run-follows=%s for: %s\n"
         (String.concat " " (List.map (fun k -> name k ^ "=" ^ show k) [0; 1; 2; 3])) (name variant) line end) all;
+  (* "D <op> <modelkind 6|7> <otherdev> <srcmissing=0> <nonempty> <ok> <srcpresent> <srcorig> <dstgiven> <thirdok> <dstinside>
+     <selfparent> <srcsym> ..." : directory-like destination spellings ("dir/", "dir//", "dir/.", through a symlinked directory,
+     missing directory). Specification with "the destination" = the path given or <dir>/<base of source>; model = the
+     "destination is a directory" failure of the run's variant, a success satisfying the specification is accepted too. *)
+  let dirlike = ref 0 and dirlike_fail = ref 0 in
+  iter_lines Sys.argv.(1) (fun line ->
+    match split_ws line with
+    | "D" :: op :: mk :: od :: sm :: ne :: ok :: sp :: so :: dg :: th :: di :: self :: ssym :: _ ->
+        let n s = n_of_int (int_of_string s) in
+        incr dirlike;
+        if n sm <> n_of_int 0 || not (spec_dirlike (n op) (n mk) (n self) (n ssym) (n ok) (n sp) (n so) (n dg) (n di) (n th)) then begin
+          incr dirlike_fail; Printf.printf "SPECFAIL %s\n" line end
+        else if not (dirlike_matches (n_of_int variant) (n op) (n mk) (n od) (n ne) (n ok) (n sp) (n so) (n dg) (n th)) then begin
+          incr mismatch; Printf.printf "MISMATCH %s\n" line end
+    | _ -> ());
   (try
      let oc = open_out (Filename.concat (Filename.dirname Sys.argv.(1)) "strategy.txt") in
      output_string oc (string_of_int variant); close_out oc
    with _ -> ());
-  Printf.printf "STATS cases=%d specfail=%d mismatch=%d drift=0 special_source_cases=%d strategy=%s alias_policy=%s variants_consistent_with_every_case=%s\n"
-    (!cases + !special) (!specfail + !special_fail) !mismatch !special
+  Printf.printf "STATS cases=%d specfail=%d mismatch=%d drift=0 special_source_cases=%d dirlike_spelling_cases=%d strategy=%s alias_policy=%s variants_consistent_with_every_case=%s\n"
+    (!cases + !special + !dirlike) (!specfail + !special_fail + !dirlike_fail) !mismatch !special !dirlike
     (if variant land 1 = 1 then "replace" else "through") (if variant >= 2 then "noop" else "refuse")
     (if consistent = [] then "none" else String.concat "," (List.map name consistent))
